@@ -15,8 +15,13 @@ fn wait_gone(pid: i32, tid: i32) {
 }
 
 pub fn generate(seed: u64, tier: &str, out: &mut dyn std::io::Write) {
+    generate_exits("C04", seed, tier, out);
+    generate_busy(seed, tier, out);
+}
+
+/// A: exits between enumeration and attach (also part of C11: an omitted thread is a reported soft error)
+pub fn generate_exits(prop: &str, seed: u64, tier: &str, out: &mut dyn std::io::Write) {
     let n = if tier == "thorough" { 60 } else { 8 };
-    // A: exits between enumeration and attach
     for i in 0..n {
         let mut r = Rng::for_case(seed, 404, i);
         let nblock = r.range(2, 12) as usize;
@@ -60,13 +65,18 @@ pub fn generate(seed: u64, tier: &str, out: &mut dyn std::io::Write) {
         // scenario needs a target that is *not* group-stopped, which is what a failed stop gives
         let mut fail_client = minidump_writer::FailSpotName::testing_client();
         fail_client.set_enabled(minidump_writer::FailSpotName::StopProcess, true);
-        let o = dump_case("C04", &format!("e{}-{}", seed, i), &t, &cfg, &mut dest, &format!("exited={} point={}", exited.join(","), point));
+        let o = dump_case(prop, &format!("e{}-{}", seed, i), &t, &cfg, &mut dest, &format!("exited={} point={}", exited.join(","), point));
         fail_client.set_enabled(minidump_writer::FailSpotName::StopProcess, false);
         drop(fail_client);
         set_sync(None);
-        writeln!(out, "{}", o.line).unwrap();
+        let (st, tree) = o.image.as_ref().map(|img| crate::c11::soft_error_field(img)).unwrap_or(("absent".into(), "-".into()));
+        writeln!(out, "{} soft={} tree={}", o.line, st, tree).unwrap();
     }
-    // B: busy threads
+}
+
+/// B: busy threads
+pub fn generate_busy(seed: u64, tier: &str, out: &mut dyn std::io::Write) {
+    let n = if tier == "thorough" { 60 } else { 8 };
     for i in 0..n {
         let mut r = Rng::for_case(seed, 405, i);
         let nspin = r.range(1, 4) as usize;
